@@ -338,6 +338,13 @@ def match_sequence_type(value: Any,
             return any(
                 match_st(e, element_test) for e in document if isinstance(e, ElementNode)
             )
+        elif node_kind == 'namespace':
+            return st == 'namespace-node()'
+        elif node_kind == 'processing-instruction':
+            target = st[len(node_kind) + 1:-1].strip()
+            if target[:1] in ('"', "'") and target[-1:] == target[:1]:
+                target = target[1:-1].strip()
+            return v.name == target
         elif node_kind not in ('element', 'attribute'):
             return False
 
